@@ -40,6 +40,13 @@ CHECKS = {
         note="Trusts the two-variable model in vf/props/c18.py; path strings the parser rejects with ValueError are accepted as rejected (the statement only constrains accepted paths).",
         ref="DESIGN.md section 4, C18",
     ),
+    "C03": dict(
+        level="exploration",
+        technique="property-based testing over a class-definition grammar: Hypothesis-generated class worlds and API histories with position-specific ill-typed values; invariant checked by an independent reference type checker",
+        text="Hypothesis generates spec-class worlds (scalars, containers, nested/keyed spec classes, defaults of every style, preparers, inheritance, lazy/eager) and histories of up to 12 API operations where ~35% of the values are ill-typed at one structural position; after every step an independent reference checker inspects the raw storage of every live instance. Sampled search (quick ~10k, thorough ~56k histories).",
+        note="Trusts vf/reftype.py (descriptor-level reference checker) and the grammar's soundness rules (class-level defaults conform to their annotation; users do not mutate contained collections directly).",
+        ref="DESIGN.md section 4, C03",
+    ),
 }
 
 NOT_YET = "check not built yet in this revision (see DESIGN.md section 9 for the order); nothing is claimed"
